@@ -771,6 +771,12 @@ def gen_world(struct_seed, value_seed, cfg) -> dict:
                     "sound_event": rs.randrange(ns),
                     "tags": predicted_tags(),
                 }
+                if se_annotations and rs.random() < 0.06:
+                    # identifiers are unique per kind, not across kinds: a
+                    # prediction derived from an annotation may keep its id
+                    p["uuid"] = rs.choice(se_annotations)["uuid"]
+                    if any(q["uuid"] == p["uuid"] for q in se_predictions):
+                        p["uuid"] = _uuid(rs)
                 if _maybe(rv, cfg):
                     p["score"] = gen_score(rv, cfg)
                 se_predictions.append(p)
@@ -1306,6 +1312,9 @@ def reach_probes(spec) -> list:
             se_users.setdefault(j, set()).add("sequence")
     if any(len(v) >= 2 for v in se_users.values()):
         out.add("shape:sound-event-shared-annotation/prediction/sequence")
+    ann_ids = {a["uuid"] for a in spec.get("se_annotations", [])}
+    if any(p["uuid"] in ann_ids for p in spec.get("se_predictions", [])):
+        out.add("shape:prediction-and-annotation-share-an-identifier")
     for s_ in spec.get("sound_events", []):
         g = s_.get("geometry")
         out.add(f"shape:geometry-{g['type'] if g else 'none'}")
